@@ -98,7 +98,7 @@ V("c06-type-table-drop-varchar", A, "C06", "C06.d", ("types", '    "VARCHAR": "t
 
 # ---------------------------------------------------------------- C03
 V("c03-share-instance-handle", A, ["C03", "C13"], "C03.a",
-  ("instance", "            self.duck_conn.cursor(),\n            database,", "            self.duck_conn,\n            database,"))
+  ("instance", "                self.duck_conn.cursor(),\n                database,", "                self.duck_conn,\n                database,"))
 V("c03-context-before-engine", A, ["C03", "C07"], "C03.b",
   ("cursor", """        result_sql = None
 
@@ -321,3 +321,172 @@ V("c20-neutral-rename-stack", N, "C20", None,
   ("__init__", "    stack = contextlib.ExitStack()", "    exit_stack = contextlib.ExitStack()"),
   ("__init__", "            stack.enter_context(p)", "            exit_stack.enter_context(p)"),
   ("__init__", "        stack.close()", "        exit_stack.close()"))
+
+# ---------------------------------------------------------------- C01
+V("c01-float-stays-float", A, "C01", "C01.a", ("transforms", '        expression.args["this"] = exp.DataType.Type.DOUBLE\n', '        expression.args["this"] = exp.DataType.Type.FLOAT\n'))
+V("c01-drop-float-stage", A, "C01", "C01.a", ("cursor", "            .transform(transforms.float_to_double)\n", ""))
+V("c01-tinyint-not-widened", A, "C01", "C01.a",
+  ("transforms", "expression.this in (exp.DataType.Type.INT, exp.DataType.Type.SMALLINT, exp.DataType.Type.TINYINT)",
+   "expression.this in (exp.DataType.Type.INT, exp.DataType.Type.SMALLINT)"))
+V("c01-ntz-to-seconds", A, "C01", "C01.a", ("transforms", "        return exp.DataType(this=exp.DataType.Type.TIMESTAMP)\n", "        return exp.DataType(this=exp.DataType.Type.TIMESTAMP_S)\n"))
+V("c01-variant-unmapped", A, "C01", "C01.a", ("transforms", "        exp.DataType.Type.OBJECT,\n        exp.DataType.Type.VARIANT,\n    ]:", "        exp.DataType.Type.OBJECT,\n    ]:"))
+V("c01-pandas-unquoted-cols", A, "C01", "C01.c", ("pandas_tools", """escaped_cols = ",".join(f'"{col}"' for col in df.columns.to_list())""", """escaped_cols = ",".join(f"{col}" for col in df.columns.to_list())"""))
+V("c01-pandas-no-json", A, "C01", "C01.c", ("pandas_tools", "lambda x: json.dumps(x) if isinstance(x, (dict, list)) else x", "lambda x: str(x) if isinstance(x, (dict, list)) else x"))
+V("c01-pandas-count-len", A, "C01", "C01.c", ("pandas_tools", "    return duck_conn.fetchall()[0][0]", "    duck_conn.fetchall()\n    return len(df)"))
+V("c01-neutral-drop-redundant-ntz-stage", N, "C01", None, ("cursor", "            .transform(transforms.timestamp_ntz)\n", ""))
+V("c01-neutral-pipeline-loop", N, ["C01", "C02", "C10", "C11"], None,
+  ("cursor", """            .transform(transforms.alias_in_join)
+            .transform(transforms.alter_table_strip_cluster_by)
+        )""", """            .transform(transforms.alias_in_join)
+        ).transform(transforms.alter_table_strip_cluster_by)"""))
+
+# ---------------------------------------------------------------- C02
+V("c02-fold-not-first", A, "C02", "C02.a",
+  ("cursor", """            expression.transform(transforms.upper_case_unquoted_identifiers)
+            .transform(transforms.update_variables, variables=self._conn.variables)""",
+   """            expression.transform(transforms.update_variables, variables=self._conn.variables)
+            .transform(transforms.upper_case_unquoted_identifiers)"""))
+V("c02-fold-quoted-too", A, "C02", "C02.a",
+  ("transforms", "if isinstance(expression, exp.Identifier) and not expression.quoted and isinstance(expression.this, str):",
+   "if isinstance(expression, exp.Identifier) and isinstance(expression.this, str):"))
+V("c02-describe-kind-no-upper", A, "C02", "C02.c", ("transforms", 'and kind.upper() in ("TABLE", "VIEW")', 'and kind in ("TABLE", "VIEW")'))
+V("c02-merge-delete-raw-again", A, ["C02", "C12"], None,
+  ("transforms_merge", """            elif isinstance(then, exp.Var) and then.name.upper() == "DELETE":
+                operations["deleted"].append(w_idx)""", """            elif isinstance(then, exp.Var) and then.name == "DELETE":
+                operations["deleted"].append(w_idx)"""))
+V("c02-equal-ignores-quotes", A, "C02", "C02.d", ("checks", "    lid = left.this if left.quoted else left.this.upper()", "    lid = left.this.upper()"))
+V("c02-identifier-fn-ok-others-lower", A, "C02", "C02.b",
+  ("transforms", 'exp.Identifier(this="_FS_COLUMNS_SNOWFLAKE", quoted=False)', 'exp.Identifier(this="_fs_columns_snowflake", quoted=False)'))
+V("c02-anonymous-name-raw", A, "C02", "C02.c", ("transforms", 'and expression.this.upper() == "TO_DATE"', 'and expression.this == "TO_DATE"'))
+V("c02-neutral-redundant-upper-removed", N, "C02", None, ("transforms", '        or kind.upper() != "SCHEMA"\n', '        or kind != "SCHEMA"\n'))
+V("c02-neutral-casefold", N, "C02", None, ("transforms", 'and kind.upper() in ("TABLE", "VIEW")', 'and kind.casefold() in ("table", "view")'))
+
+# ---------------------------------------------------------------- C09
+V("c09-drop-fs-filter-show-tables", A, "C09", "C09.a",
+  ("transforms", """exclude_fakesnow_tables = "not (table_schema == 'information_schema' and table_name like '_fs_%%')\"""",
+   """exclude_fakesnow_tables = "1 = 1\""""))
+V("c09-keys-filter-dropped", A, "C09", "C09.a",
+  ("transforms", """                  AND database_name = '{current_database}'
+                  AND table_name NOT LIKE '_fs_%'
+                \"\"\"
+
+        scope_kind""", """                  AND database_name = '{current_database}'
+                \"\"\"
+
+        scope_kind"""))
+V("c09-databases-view-lists-global", A, "C09", "C09.a",
+  ("info_schema", "where catalog_name not in ('memory', 'system', 'temp', '_fs_global')", "where catalog_name not in ('memory', 'system', 'temp')"))
+V("c09-describe-ignores-schema", A, "C09", "C09.b",
+  ("transforms", "WHERE table_catalog = '${catalog}' AND table_schema = '${schema}' AND table_name = '${table}'",
+   "WHERE table_catalog = '${catalog}' AND table_name = '${table}'"))
+V("c09-show-in-schema-ignores-db", A, "C09", "C09.b",
+  ("transforms", """        catalog = table.db or current_database
+        schema = table.name""", """        catalog = None
+        schema = table.name"""))
+V("c09-conflict-key-short", A, ["C09", "C18"], "C09.c",
+  ("info_schema", "        ON CONFLICT (ext_table_catalog, ext_table_schema, ext_table_name)\n", "        ON CONFLICT (ext_table_schema, ext_table_name)\n"))
+V("c09-values-order-swapped", A, ["C09", "C18"], "C09.c",
+  ("info_schema", "values ('{catalog}', '{schema}', '{table}', '{comment}')", "values ('{schema}', '{catalog}', '{table}', '{comment}')"))
+V("c09-no-quote-doubling", A, "C09", "C09.e", ("info_schema", """    comment = comment.replace("'", "''")\n""", ""))
+V("c09-phantom-comment", A, "C09", "C09.f",
+  ("transforms", """            if comment is not None:
+                new.args["table_comment"] = (table, comment)""", """            new.args["table_comment"] = (table, comment)"""))
+V("c09-side-table-in-global", A, ["C09", "C18"], "C09.c",
+  ("info_schema", "        INSERT INTO {catalog}.information_schema._fs_tables_ext\n", "        INSERT INTO information_schema._fs_tables_ext\n"))
+V("c09-neutral-not-equal-spelling", N, "C09", None,
+  ("info_schema", "  and schema_name != 'information_schema'", "  and schema_name <> 'information_schema'"))
+
+# ---------------------------------------------------------------- C10 / C11
+V("c10-regex-substr-before-indices", A, "C10", "C10.a",
+  ("cursor", "            .transform(transforms.indices_to_json_extract)\n", ""),
+  ("cursor", "            .transform(transforms.regex_substr)\n", "            .transform(transforms.regex_substr)\n            .transform(transforms.indices_to_json_extract)\n"))
+V("c10-array-agg-before-within-group", A, "C10", "C10.a",
+  ("cursor", """            .transform(transforms.array_agg_within_group)
+            .transform(transforms.array_agg)""", """            .transform(transforms.array_agg)
+            .transform(transforms.array_agg_within_group)"""))
+V("c10-to-date-after-dateadd", A, "C10", "C10.a",
+  ("cursor", "            .transform(transforms.to_date)\n", ""),
+  ("cursor", "            .transform(transforms.dateadd_date_cast)\n", "            .transform(transforms.dateadd_date_cast)\n            .transform(transforms.to_date)\n"))
+V("c10-side-key-renamed-writer", A, ["C10", "C03"], None,
+  ("transforms", 'this="SET", expression=exp.Literal.string(f"schema = \'{database}.main\'"), set_database=database',
+   'this="SET", expression=exp.Literal.string(f"schema = \'{database}.main\'"), use_database=database'))
+V("c10-create-database-no-macros", A, ["C10", "C18"], "C10.c", ("cursor", "            self._duck_conn.execute(macros.creation_sql(create_db_name))\n", ""))
+V("c10-neutral-independent-reorder", N, ["C10", "C11"], None,
+  ("cursor", """            .transform(transforms.sample)
+            .transform(transforms.array_size)""", """            .transform(transforms.array_size)
+            .transform(transforms.sample)"""))
+V("c11-precedence-before-cast", A, "C11", "C11.a",
+  ("cursor", """            .transform(transforms.json_extract_cast_as_varchar)
+            .transform(transforms.json_extract_cased_as_varchar)
+            .transform(transforms.json_extract_precedence)""", """            .transform(transforms.json_extract_precedence)
+            .transform(transforms.json_extract_cast_as_varchar)
+            .transform(transforms.json_extract_cased_as_varchar)"""))
+V("c11-flatten-before-types", A, "C11", "C11.a",
+  ("cursor", "            .transform(transforms.semi_structured_types)\n", ""),
+  ("cursor", "            .transform(transforms.flatten)\n", "            .transform(transforms.flatten)\n            .transform(transforms.semi_structured_types)\n"))
+V("c11-trim-after-cast", A, "C11", "C11.a",
+  ("cursor", "            .transform(transforms.trim_cast_varchar)\n", ""),
+  ("cursor", "            .transform(transforms.json_extract_precedence)\n", "            .transform(transforms.json_extract_precedence)\n            .transform(transforms.trim_cast_varchar)\n"))
+V("c11-flatten-value-cast-after-flatten", A, "C11", "C11.a",
+  ("cursor", """            .transform(transforms.flatten_value_cast_as_varchar)
+            .transform(transforms.flatten)""", """            .transform(transforms.flatten)
+            .transform(transforms.flatten_value_cast_as_varchar)"""))
+
+# ---------------------------------------------------------------- C12
+V("c12-counts-ladder-disagrees", A, "C12", "C12.b",
+  ("transforms_merge", """            if isinstance(then, exp.Update):
+                operations["updated"].append(w_idx)""", """            if isinstance(then, exp.Update):
+                operations["deleted"].append(w_idx)"""))
+V("c12-mutation-index-off", A, "C12", "C12.b",
+  ("transforms_merge", """                    WHERE {join_expr}
+                    AND {source_tbl}.merge_op = {w_idx}
+                \"\"\"
+                statements.append(sqlglot.parse_one(update_sql))""", """                    WHERE {join_expr}
+                    AND {source_tbl}.merge_op = {w_idx + 1}
+                \"\"\"
+                statements.append(sqlglot.parse_one(update_sql))"""))
+V("c12-insert-into-source", A, "C12", "C12.c", ("transforms_merge", "                INSERT INTO {target_tbl} {columns}\n", "                INSERT INTO {source_tbl} {columns}\n"))
+V("c12-helper-not-temporary", A, "C12", "C12.d", ("transforms_merge", "    CREATE OR REPLACE TEMPORARY TABLE merge_candidates AS", "    CREATE OR REPLACE TABLE merge_candidates AS"))
+
+# ---------------------------------------------------------------- C17
+V("c17-auth-after-body", A, "C17", "C17.a",
+  ("server", """        conn = to_conn(request)
+
+        body = await request.body()
+        body_json = json.loads(gzip.decompress(body))
+""", """        body = await request.body()
+        body_json = json.loads(gzip.decompress(body))
+        conn = to_conn(request)
+"""))
+V("c17-status-403", A, "C17", "C17.a", ("server", 'raise ServerError(status_code=401, code="390104"', 'raise ServerError(status_code=403, code="390104"'))
+V("c17-unknown-token-gets-new-session", A, "C17", "C17.a",
+  ("server", """    if not (conn := sessions.get(token)):
+        raise ServerError(status_code=401, code="390104", message="User must login again to access the service.")
+""", """    if not (conn := sessions.get(token)):
+        conn = sessions[token] = shared_fs.connect()
+"""))
+V("c17-one-connection-for-all", A, "C17", "C17.b", ("server", "    sessions[token] = fs.connect(database, schema)", "    sessions[token] = sessions.get('default') or fs.connect(database, schema)"))
+V("c17-error-code-unpadded", A, "C17", "C17.c", ('server', 'code = f"{e.errno:06d}"', 'code = f"{e.errno}"'))
+V("c17-fraction-unrounded", A, "C17", "C17.d", ("arrow", "pc.round(pc.multiply(pc.subsecond(ts), 1_000_000_000)).cast(pa.int32())", "pc.multiply(pc.subsecond(ts), 1_000_000_000).cast(pa.int32())"))
+
+# ---------------------------------------------------------------- C18 / C19
+V("c18-create-db-lowercases-file", A, "C18", "C18.a", ("transforms", 'db_file = f"{db_path/db_name}.db" if db_path else ":memory:"', 'db_file = f"{db_path/db_name.lower()}.duckdb" if db_path else ":memory:"'))
+V("c18-connect-always-memory", A, ["C18", "C14"], None, ("conn", 'db_file = f"{self.db_path/self.database}.db" if self.db_path else ":memory:"', 'db_file = ":memory:"'))
+V("c18-create-db-ignores-db-path", A, "C18", "C18.a", ("cursor", "            .transform(transforms.create_database, db_path=self._conn.db_path)\n", "            .transform(transforms.create_database)\n"))
+V("c19-attach-outside-lock", A, "C19", "C19.a",
+  ("instance", """        with self._connect_lock:
+            return fakes.FakeSnowflakeConnection(""", """        with self._connect_lock:
+            pass
+        if True:
+            return fakes.FakeSnowflakeConnection("""))
+V("c19-lock-per-call", A, "C19", "C19.a", ("instance", "        with self._connect_lock:\n", "        with threading.Lock():\n"))
+V("c19-mutate-success-nop", A, "C19", "C19.c",
+  ("transforms", """        new = SUCCESS_NOP.copy()
+        new.args["table_comment"] = (table, cexp.this)
+        return new""", """        new = SUCCESS_NOP
+        new.args["table_comment"] = (table, cexp.this)
+        return new"""))
+V("c19-module-level-cache", A, "C19", "C19.c",
+  ("transforms", 'MISSING_DATABASE = "missing_database"\n', 'MISSING_DATABASE = "missing_database"\n_SEEN_DATABASES = {}\n'),
+  ("transforms", "        db_name = ident.this\n", "        db_name = ident.this\n        _SEEN_DATABASES[db_name] = True\n"))
+V("c19-neutral-rlock", N, "C19", None, ("instance", "self._connect_lock = threading.Lock()", "self._connect_lock = threading.RLock()"))
